@@ -94,7 +94,7 @@ Fmt(toks, c) ==
 \* value a SetContext stores for template tpl in context c
 Eval(tpl, c) ==
   IF tpl.t = "fmt" THEN LET r == Fmt(tpl.toks, c) IN [ok |-> r.ok, v |-> Leaf("str", r.s), key |-> r.key, keys |-> r.keys]
-  ELSE [ok |-> TRUE, v |-> Leaf(tpl.t, <<tpl.toks[1].l>>), key |-> "", keys |-> {}]
+  ELSE [ok |-> TRUE, v |-> Leaf(tpl.t, [j \in 1..Len(tpl.toks) |-> tpl.toks[j].l]), key |-> "", keys |-> {}]
 
 Lit(ch) == [f |-> FALSE, p |-> <<>>, l |-> ch]
 Fld(path) == [f |-> TRUE, p |-> path, l |-> ""]
@@ -215,10 +215,13 @@ NameOf(E, i, in) == IF in.err THEN [free |-> TRUE, ok |-> FALSE, s |-> <<>>]
 (***************************************************************************)
 OverTop(s, rc) == Dict([key \in DOMAIN s.m \cup DOMAIN rc.m |->
                           IF key \in DOMAIN rc.m THEN rc.m[key] ELSE s.m[key]])
-MFStep(tpl, s, rc) ==
-  IF Get(rc, <<"output", "filename">>).ok THEN rc
+\* MakeFilename(filename=..) / (dirname=..) / (fileext=..): kinds mf / mfd / mfe
+IsMF(k) == k \in {"mf", "mfd", "mfe"}
+OutField(k) == CASE k = "mfd" -> "dirname" [] k = "mfe" -> "fileext" [] OTHER -> "filename"
+MFStep(k, tpl, s, rc) ==
+  IF Get(rc, <<"output", OutField(k)>>).ok THEN rc
   ELSE LET r == Fmt(tpl.toks, OverTop(s, rc)) IN
-       IF r.ok THEN Put(rc, <<"output", "filename">>, Leaf("str", r.s)) ELSE rc
+       IF r.ok THEN Put(rc, <<"output", OutField(k)>>, Leaf("str", r.s)) ELSE rc
 
 \* the run-time context of the one value that enters (a key that is not a static key)
 RT0 == Dict("rt" :> Leaf("int", <<"0">>))
@@ -230,7 +233,7 @@ RunList(E, seen, ch, vals) ==
   IF ch = <<>> THEN vals
   ELSE LET e == Head(ch) IN
     CASE E[e].k = "ucfs" -> LET F(rc) == UpdRec(rc, seen[e]) IN RunList(E, seen, Tail(ch), MapSeq(F, vals))
-      [] E[e].k = "mf" -> LET F(rc) == MFStep(E[e].v, seen[e], rc) IN RunList(E, seen, Tail(ch), MapSeq(F, vals))
+      [] IsMF(E[e].k) -> LET F(rc) == MFStep(E[e].k, E[e].v, seen[e], rc) IN RunList(E, seen, Tail(ch), MapSeq(F, vals))
       [] E[e].k = "seq" -> RunList(E, seen, Tail(ch), RunList(E, seen, E[e].ch, vals))
       [] E[e].k = "split" -> RunList(E, seen, Tail(ch), RunBranches(E, seen, E[e].ch, vals))
       [] OTHER -> RunList(E, seen, Tail(ch), vals)
